@@ -56,6 +56,7 @@ Proof.
       apply map_ext_in. intros r Ir. apply map_ext_in. intros k Ik. cbn [cols].
       apply Hcell; [|apply IK, Ik]. apply sfx_rows_In in Ir. simpl in Ir. apply in_map_iff in Ir. destruct Ir as [r0 [<- _]]. apply map_length.
     + apply scalar_count; assumption.
+    + apply scalar_sub; assumption.
 Qed.
 
 (* ------------------------------------------------------------------ table descriptions *)
@@ -71,7 +72,8 @@ Proof.
   - rewrite EK. exact Nt.
   - rewrite EK. exact Iu.
   - rewrite EC. intros x Hx. apply It, Iu, Hx.
-  - intros K NE NK IK. simpl. rewrite G. destruct K as [|k0 K']; [congruence|]. simpl. eexists. split; [reflexivity|]. split; [apply sel_nil_sel|reflexivity].
+  - intros K NE NK IK. simpl. rewrite G. destruct K as [|k0 K']; [congruence|]. simpl. eexists. split; [reflexivity|]. split; [apply sel_nil_sel|]. split; [reflexivity|].
+    intros C _ IC _. apply sel_sel, IC.
   - simpl. rewrite G. exists st. split; reflexivity.
   - intros n ts' [= <- _]. exists st. split; [exact G|reflexivity].
 Qed.
